@@ -211,8 +211,11 @@ class Input(object):
         else:
             self.output_n_int = int.from_bytes(output_n, 'big')
             self.output_n = output_n
-        self.unlocking_script = b'' if unlocking_script is None else to_bytes(unlocking_script)
-        self.locking_script = b'' if locking_script is None else to_bytes(locking_script)
+        # Scripts given as bytes are raw scripts: never guess that they are hexadecimal text
+        self.unlocking_script = b'' if unlocking_script is None else \
+            (unlocking_script if isinstance(unlocking_script, bytes) else to_bytes(unlocking_script))
+        self.locking_script = b'' if locking_script is None else \
+            (locking_script if isinstance(locking_script, bytes) else to_bytes(locking_script))
         self.script = None
         self.hash_type = SIGHASH_ALL
         if isinstance(sequence, numbers.Number):
@@ -642,7 +645,9 @@ class Output(object):
         if not isinstance(network, Network):
             self.network = Network(network)
         self.value = value_to_satoshi(value, network=network)
-        self.lock_script = b'' if lock_script is None else to_bytes(lock_script)
+        # A script given as bytes is a raw script: never guess that it is hexadecimal text
+        self.lock_script = b'' if lock_script is None else \
+            (lock_script if isinstance(lock_script, bytes) else to_bytes(lock_script))
         self.public_hash = to_bytes(public_hash)
         if isinstance(address, Address):
             self._address = address.address
